@@ -30,8 +30,8 @@ func (g *gen) condHeaders(st *Step, targetIsDir bool) map[string]string {
 	hints := map[string]string{}
 	pick := func(h string) {
 		var v, hint string
-		k := g.r.Weighted([]int{12, 25, 14, 8, 12, 12})
-		if targetIsDir && k >= 1 && k <= 3 {
+		k := g.r.Weighted([]int{12, 25, 14, 8, 12, 12, 6, 5})
+		if targetIsDir && ((k >= 1 && k <= 3) || k >= 6) {
 			k = 4 // collections never get an announced tag: only * or an unknown tag
 		}
 		switch k {
@@ -45,8 +45,19 @@ func (g *gen) condHeaders(st *Step, targetIsDir bool) map[string]string {
 			v, hint = "${tag:other}", "differs"
 		case 4:
 			v, hint = fmt.Sprintf("\"vsim-unknown-%d\"", g.r.Intn(100)), "differs"
+			if g.r.Chance(0.15) {
+				v = rt.Pick(g.r, []string{`"*"`, `"**"`, `"W/"`, `" "`, `"0"`}) // well-formed tags that look like something else
+			}
 		case 5:
 			v = rt.Pick(g.r, []string{"abc", "\"abc", "abc\"", "W/\"abc\"", "'abc'", "d234ccf525242401", "**", "\"", "W/*"})
+		case 6: // malformed values built around the server's own current tag
+			v = rt.Pick(g.r, []string{"${tag:current}x", "${tag:current} junk", "${tag:current};q=1", "x${tag:current}", "W/${tag:current}", "${tag:current}\""})
+		case 7: // lists: valid HTTP, "not a quoted string" for the statement
+			if g.r.Chance(0.5) {
+				v, hint = "\"0\", ${tag:current}", "list-with-current"
+			} else {
+				v, hint = "\"0\", \"vsim-unknown-1\"", "list-without-current"
+			}
 		}
 		st.set(h, v)
 		if hint != "" {
